@@ -31,3 +31,6 @@ func VerifRunLs(fi os.FileInfo) string { return runLs(nil, fi) }
 
 // VerifFileStatFromInfo exposes fileStatFromInfo.
 func VerifFileStatFromInfo(fi os.FileInfo) (uint32, *FileStat) { return fileStatFromInfo(fi) }
+
+// VerifToPflags exposes toPflags (os.OpenFile flags -> SSH_FXF_* open flags of Client.OpenFile).
+func VerifToPflags(f int) uint32 { return toPflags(f) }
